@@ -160,7 +160,8 @@ static int print_i(void (*printchar_handler)(void *d, int c),
         /* the precision is a minimum number of digits: a sign or "0x" does not
          * count, the leading "0" of %#o does */
         zero_count = min_len - len - (base == 8 ? prefix_len : 0);
-    else if ((ops & OPS_FLAG_ZERO_PAD) && !(ops & OPS_FLAG_LEFT_ALIGN))
+    else if ((ops & OPS_FLAG_ZERO_PAD) && !(ops & OPS_FLAG_LEFT_ALIGN) &&
+             !(ops & OPS_PREC_IS_GIVEN))
         zero_count = width - len - prefix_len;
     else
         zero_count = 0;
